@@ -278,6 +278,19 @@ def run(ctx):
                         # compares component .0 (the name) of both items — alone, or first in a tuple
                         txt = facts.show(r)
                         cmp_ok = (q.is_call(r, 'cmp') or q.is_call(r, 'partial_cmp') or q.is_call(r, 'unwrap')) and '.0' in txt
+                if hit is not None:
+                    # what is compared are the decoded names (Strings, as in the JSON maps) — not the parser's escaped labels
+                    for bj, t, se in sorts:
+                        if (bj, se) != hit:
+                            continue
+                        target = q.container_root(g, t['args'][0])
+                        ty = g.locals[target[0][1]]['ty'] if target and target[0][0] == 'var' else ''
+                        if 'Vec<' in ty:
+                            elem = ty[ty.index('Vec<') + 4:]
+                            decoded = elem.lstrip('&(').startswith(('std::string::String', 'String'))
+                            if decoded or 'EscapedStr' in elem:
+                                ctx.verdict(decoded, rule, '%s:%s:sorted-by-decoded-name' % (rule, what), 'the vector that is sorted holds the decoded (unescaped) names the game is built with — the order JSON\'s name-ordered maps give',
+                                            g.where(bj), 'element type of the sorted vector: %s' % elem[:70], breaks='labels with escaped quotes / backslashes sort differently in the Gambit and the JSON encoding of one game: different action order, different solution')
                 ctx.verdict(hit is not None and cmp_ok, rule, '%s:%s' % (rule, what), 'the %s placed into GameNode::%s are the vector sorted by name (Gambit only guarantees equal multisets within an infoset)' % (what, variant),
                             g.where(bi), 'sort dominates construction and feeds it: %s; comparator on names: %s' % (hit is not None, cmp_ok), breaks='nodes of one infoset list actions in different orders: construction fails or actions are mismatched')
     # JSON: ordered maps
